@@ -322,6 +322,22 @@ func runJSONDocs(c *runCtx) {
 				c.agree(kw+"-padded", pd, 3072, false)
 			}
 		}
+		// the same document pretty-printed with runs of 8 and 16 blanks between its tokens, examined whole and in
+		// truncated mode at every few bytes (white space is counted byte by byte like everything else)
+		if kw == "valid" && i%6 == 0 && len(d) < 400 {
+			for _, ind := range []string{"        ", "                ", "\n        ", "\t\t\t\t\t\t\t\t\t"} {
+				pd := strings.NewReplacer(",", ","+ind, ":", ":"+ind, "[", "["+ind, "{", "{"+ind).Replace(d)
+				if !stdjson.Valid([]byte(pd)) {
+					continue
+				}
+				c.jsonCase("valid", []byte(pd), 0)
+				ob := strings.IndexAny(pd, "[{") // (a cut counts only when it includes the opening bracket)
+				for k := len(pd); ob >= 0 && k > ob+1 && k > len(pd)-200; k -= 7 {
+					c.jsonCase("valid-cut", []byte(pd[:k]), uint32(k))
+				}
+				c.agree("valid-indented", []byte(pd), uint32(len(pd)), false)
+			}
+		}
 		// malformed in whole mode: no entry point may read it as truncated
 		if kw == "valid" && i%4 == 0 && len(d) > 3 {
 			bad := []byte(d[:len(d)-1-i%3])
